@@ -194,6 +194,13 @@ class Units:
                         changed |= self.set(t['dest']['l'], ru, 'result of ' + P.strip(name).split('::')[-1])
                     if P.strip(name).endswith('Iterator::count') and t['args'] and 'Char' in t['args'][0].get('ty', '') and not t['dest']['proj']:
                         changed |= self.set(t['dest']['l'], 'C', 'count() of characters')
+                    if suffix_lookup(SAME_UNIT, name) and len(t['args']) == 2 and not P.strip(name).endswith('Clone::clone'):
+                        # min / max / saturating_sub .. of two quantities: both of one unit
+                        ua, ub = self.op_unit(t['args'][0]), self.op_unit(t['args'][1])
+                        if ua and ub and ua != ub and 'X' not in (ua, ub) and 'tuple' not in (ua, ub):
+                            mm = (t['ln'], '%s between %s and %s' % (P.strip(name).split('::')[-1], NAMES[ua], NAMES[ub]), None)
+                            if mm not in self.mix:
+                                self.mix.append(mm)
                     if suffix_lookup(SAME_UNIT, name) and t['args'] and not t['dest']['proj']:
                         u0 = self.op_unit(t['args'][0])
                         if u0 and u0 != 'X':
